@@ -103,6 +103,43 @@ def lin(t):
     return None
 
 
+def poly(t):
+    """polynomial normal form {monomial (sorted tuple of leaves): coeff} of an Add/Sub/Mul tree over integer leaves
+    (widening casts are transparent), or None when the tree contains anything else"""
+    if t[0] == "const":
+        return {(): t[1]} if t[1] else {}
+    if t[0] == "leaf":
+        m = re.fullmatch(r"cast\((.*) as (u\d+|usize|i\d+|isize)\)", t[1])
+        if m:
+            return poly(parse(m.group(1)))
+        return {(t[1],): 1}
+    if t[0] in ("Add", "Sub"):
+        a, b = poly(t[1]), poly(t[2])
+        if a is None or b is None:
+            return None
+        out = dict(a)
+        for k, v in b.items():
+            out[k] = out.get(k, 0) + (v if t[0] == "Add" else -v)
+        return {k: v for k, v in out.items() if v != 0}
+    if t[0] == "Mul":
+        a, b = poly(t[1]), poly(t[2])
+        if a is None or b is None:
+            return None
+        out = {}
+        for k1, v1 in a.items():
+            for k2, v2 in b.items():
+                k = tuple(sorted(k1 + k2))
+                out[k] = out.get(k, 0) + v1 * v2
+        return {k: v for k, v in out.items() if v != 0}
+    return None
+
+
+def poly_str(d):
+    if d is None:
+        return "not a polynomial"
+    return " + ".join("%s%s" % (v, "".join("*" + x for x in k)) for k, v in sorted(d.items())) or "0"
+
+
 def lin_str(d):
     if d is None:
         return "non-linear"
